@@ -416,7 +416,7 @@ fn families_base(id: &str, tier: &str) -> Vec<Spec> {
     let mut out = Vec::new();
     match id {
         "C01" => {
-            let b = if thorough { 6 } else { 3 };
+            let b = if thorough { 6 } else { 5 };
             ps_set(&[(&[2], 1), (&[2], 2), (&[2, 2], 1), (&[2, 2], 2), (&[1], 3), (&[0, 1], 1)], false, false, false, b, &mut out);
             burst_families(&mut out);
             gated_ps_families(b, &mut out);
@@ -434,15 +434,15 @@ fn families_base(id: &str, tier: &str) -> Vec<Spec> {
             }
         }
         "C02" | "C10" => {
-            routing_families(tier, if thorough { 5 } else { 3 }, &mut out);
+            routing_families(tier, if thorough { 5 } else { 4 }, &mut out);
             burst_families(&mut out);
-            any_order_families("rr", if thorough { 4 } else { 2 }, &mut out);
+            any_order_families("rr", if thorough { 4 } else { 3 }, &mut out);
             many_peer_families("rr", &mut out);
             out.retain(|s| matches!(s.scn, Scn::Rr(_)));
         }
-        "C08" => fault_families(tier, if thorough { 6 } else { 4 }, &mut out),
+        "C08" => fault_families(tier, if thorough { 6 } else { 5 }, &mut out),
         "C09" => {
-            let b = if thorough { 5 } else { 3 };
+            let b = if thorough { 5 } else { 4 };
             ps_set(&[(&[2], 1), (&[2], 2), (&[2, 2], 1), (&[2, 2], 2), (&[1], 3)], false, false, false, b, &mut out);
             routing_families(tier, b, &mut out);
             burst_families(&mut out);
@@ -455,8 +455,8 @@ fn families_base(id: &str, tier: &str) -> Vec<Spec> {
                 fault_families(tier, 3, &mut out);
             }
         }
-        "C11" => hostile_families(tier, if thorough { 5 } else { 2 }, &mut out),
-        "C16" => shutdown_families(if thorough { 6 } else { 4 }, &mut out),
+        "C11" => hostile_families(tier, if thorough { 5 } else { 4 }, &mut out),
+        "C16" => shutdown_families(if thorough { 6 } else { 5 }, &mut out),
         _ => {}
     }
     out
